@@ -64,11 +64,12 @@ type variant struct {
 	rf       uint32
 	syncData bool
 	dup      bool
-	mute     int  // number of followers that never acknowledge (must leave a quorum)
-	perW     int  // writes per writer
-	cancel   bool // writer 0's context is cancelled by another thread while its write is in flight
-	sameKey  bool // all writers write the same key (C02: the leader's state must follow the log order)
-	fence    bool // a NewTerm(term+1) request races with the writers (acks may arrive after the tracker is closed)
+	mute     int   // number of followers that never acknowledge (must leave a quorum)
+	perW     int   // writes per writer
+	cancel   bool  // writer 0's context is cancelled by another thread while its write is in flight
+	sameKey  bool  // all writers write the same key (C02: the leader's state must follow the log order)
+	fence    bool  // a NewTerm(term+1) request races with the writers (acks may arrive after the tracker is closed)
+	seg      int32 // WAL segment size (0 = 64 KiB); a few hundred bytes make segments roll over while syncs are pending
 }
 
 type wres struct {
@@ -83,7 +84,11 @@ func body(v variant) func(s *vsched.Sched) {
 		env := oxc.NewEnv(s)
 		net := oxc.NewNet()
 		kvf := oxc.NewObsFactory(env.Dir)
-		walf := env.WalFactory("leader", 64*1024, v.syncData)
+		seg := int32(64 * 1024)
+		if v.seg > 0 {
+			seg = v.seg
+		}
+		walf := env.WalFactory("leader", seg, v.syncData)
 		lc, err := server.NewLeaderController(server.Config{NotificationsRetentionTime: time.Hour}, "ns", 1, net, walf, kvf)
 		if err != nil {
 			fail(s, "harness-setup", err.Error())
@@ -418,6 +423,7 @@ func scenarios(tier string) []sched.Scenario {
 		add(variant{name: "rf3-2writers-same-key", writers: 2, rf: 3, syncData: true, perW: 1, sameKey: true}, 3)
 		add(variant{name: "rf3-3writers-same-key", writers: 3, rf: 3, syncData: true, perW: 1, sameKey: true}, 2)
 		add(variant{name: "rf3-2writers-fenced", writers: 2, rf: 3, syncData: true, perW: 1, fence: true}, 3)
+		add(variant{name: "rf3-2x2writes-small-segments", writers: 2, rf: 3, syncData: true, perW: 2, seg: 100}, 2)
 	} else {
 		add(variant{name: "rf3-2writers-sync", writers: 2, rf: 3, syncData: true, perW: 1}, 2)
 		add(variant{name: "rf3-2writers-nosync", writers: 2, rf: 3, perW: 1}, 2)
@@ -427,6 +433,7 @@ func scenarios(tier string) []sched.Scenario {
 		add(variant{name: "rf3-2writers-one-cancelled", writers: 2, rf: 3, syncData: true, perW: 1, cancel: true}, 2)
 		add(variant{name: "rf3-2writers-same-key", writers: 2, rf: 3, syncData: true, perW: 1, sameKey: true}, 2)
 		add(variant{name: "rf3-2writers-fenced", writers: 2, rf: 3, syncData: true, perW: 1, fence: true}, 2)
+		add(variant{name: "rf3-2x2writes-small-segments", writers: 2, rf: 3, syncData: true, perW: 2, seg: 100}, 1)
 	}
 	if onlySameKey {
 		var f []struct {
